@@ -5,6 +5,9 @@ package sim
 // simplification of what is left.
 func Minimise(sc *Scenario, fails func(*Scenario) bool) *Scenario {
 	cur := sc.Clone()
+	if len(sc.Ops) > 300 {
+		return cur // the id-cycle scenario: its length is the point
+	}
 	try := func(c *Scenario) bool {
 		if !ValidScenario(c) {
 			return false
